@@ -344,17 +344,17 @@ impl UnverifiedBiscuit {
             signature,
         };
 
-        let mut symbols = self.symbols.clone();
+        // a third-party block has its own symbol and public key tables: it neither sees nor
+        // extends the tables of the token it is appended to
+        let symbols = self.symbols.clone();
         let mut blocks = self.blocks.clone();
+
+        // the block must be well formed, as it would have to be when the token is parsed
+        proto_block_to_token_block(&block, Some(external_key)).map_err(error::Token::Format)?;
 
         let container =
             self.container
                 .append_serialized(&next_keypair, payload, Some(external_signature))?;
-
-        let token_block = proto_block_to_token_block(&block, Some(external_key)).unwrap();
-        for key in &token_block.public_keys.keys {
-            symbols.public_keys.insert_fallible(key)?;
-        }
 
         blocks.push(block);
 
